@@ -16,7 +16,7 @@
     binary32 subtraction = SpecFloat.SFsub with prec 24, emax 128 (one rounding of the exact result).
 
     Two casts: [idx_f_clip_first] is the intended/repaired behaviour (clip to [0, d-1] in floating
-    point, then cast); [idx_f_int32_first] is the unchanged code (cast to int32 first: truncation,
+    point, then cast); [idx_f_int32_first] is the pre-fix code (before fixes/F1.patch; cast to int32 first: truncation,
     out-of-range and non-finite -> -2^31 as observed on x86-64; then integer clip). *)
 From Coq Require Import List ZArith PrimFloat Uint63 FloatOps SpecFloat Bool.
 Import ListNotations.
